@@ -116,7 +116,11 @@ pub fn filter_entries(bytes: &[u8]) -> Result<bool, (String, String)> {
     let w = world();
     guarded(|| {
         for rec in &w.records {
-            let _ = f.eval(&EvalContext::make(rec, w.ns, &w.resolver));
+            for mode in 0..4usize {
+                w.resolver.unknown.store(mode, std::sync::atomic::Ordering::Relaxed);
+                let _ = f.eval(&EvalContext::make(rec, w.ns, &w.resolver));
+            }
+            w.resolver.unknown.store(0, std::sync::atomic::Ordering::Relaxed);
         }
     })
     .map_err(|p| ("eval".to_string(), p))?;
@@ -436,7 +440,7 @@ pub fn child_params(job: &str) -> (u64, u64, usize) {
 
 pub fn run(tier: Tier) -> i32 {
     let mut run = Run::new("C09", tier, "fault_enumeration");
-    run.rule = "inputs: every sequence of <= 4/5 tokens over a 30-token alphabet (tags, keywords, every operator, literals of several kinds, stray '-' '=' '?') joined with and without spaces; every byte string <= 2/3 over all bytes; every prefix, substitution, deletion and insertion (23-byte alphabet) of ~280 printed filters; every one of the 256 byte values substituted at and inserted before every position of the printed filters of <= 22 bytes; long tokens (the 24 token kinds of C03 with bodies of every length 1..72, 100, 127..129, 255..257, 300, 1000 as comparison literals; identifiers, paths, and/or chains and symbols of those lengths; all sequences of <= 3 \\uXXXX escapes incl. every surrogate combination); 8 nesting patterns ('(' , 'not ', 'a and ', 'a->', mixed) at every depth 1..256, 2^k(+1) up to 131072 and 10^5 on 8 MiB and 2 MiB stacks. Every input is parsed; every accepted filter is evaluated on 17 records with a resolver whose refs form 1- and 2-cycles over a namespace built from tests/defs/defs.zinc, printed and re-parsed. Oracle: returns — no panic, abort, stack overflow (exit status) or hang (6 s watchdog). non-trivial = distinct input of >= 2 bytes".into();
+    run.rule = "inputs: every sequence of <= 4/5 tokens over a 30-token alphabet (tags, keywords, every operator, literals of several kinds, stray '-' '=' '?') joined with and without spaces; every byte string <= 2/3 over all bytes; every prefix, substitution, deletion and insertion (23-byte alphabet) of ~280 printed filters; every one of the 256 byte values substituted at and inserted before every position of the printed filters of <= 22 bytes; long tokens (the 24 token kinds of C03 with bodies of every length 1..72, 100, 127..129, 255..257, 300, 1000 as comparison literals; identifiers, paths, and/or chains and symbols of those lengths; all sequences of <= 3 \\uXXXX escapes incl. every surrogate combination); 8 nesting patterns ('(' , 'not ', 'a and ', 'a->', mixed) at every depth 1..256, 2^k(+1) up to 131072 and 10^5 on 8 MiB and 2 MiB stacks. Every input is parsed; every accepted filter is evaluated on 17 records with a resolver whose refs form 1- and 2-cycles and which answers unknown ids in four ways (nothing, an empty record, a record without ref tags, a record pointing back at the same id) over a namespace built from tests/defs/defs.zinc, printed and re-parsed. Oracle: returns — no panic, abort, stack overflow (exit status) or hang (6 s watchdog). non-trivial = distinct input of >= 2 bytes".into();
     run.assume("a case that does not finish within 6 s is a hang; crashes and hangs are confirmed in a fresh single-step child");
     crate::engine::quiet_panics();
     for (name, n, chunk) in jobs(tier) {
